@@ -15,6 +15,8 @@ ROOT = os.path.dirname(os.path.dirname(os.path.abspath(__file__)))
 def _kinds(script):
     from sim.ref import kinds
 
+    if "programs" not in script:
+        return []
     return kinds(script["programs"][0])
 
 
@@ -113,6 +115,25 @@ def p_static_site_empty_callee(script, v):
         return any(walk(c) for c in inner_nodes(node))
 
     return "MissingAddress" in v["detail"] and walk(script["programs"][0])
+
+
+def p_index_through_scalar_siblings(script, v):
+    # Static.get_inner_map / Choice.get_inner_map index *every* leaf below the
+    # static prefix an index component follows; a sibling leaf without an index
+    # level there (a scalar) raises IndexError
+    if "models" in script:  # engine B script
+        for ents in script["models"].values():
+            addrs = [tuple(e[0]) for e in ents]
+            for x in addrs:
+                for p, c in enumerate(x):
+                    if isinstance(c, int):
+                        for y in addrs:
+                            if y[:p] == x[:p] and (len(y) <= p or not isinstance(y[p], int)):
+                                return True
+        return False
+    from sim.gen import features
+
+    return "switch_mixed_index" in features(script["programs"][0])
 
 
 def p_true(script, v):
